@@ -1,13 +1,23 @@
-"""C04 - traversal property; plans in trav_plans.py, monitor in monitors.py."""
+"""C04 - traversal property (plans in trav_plans.py, monitor in monitors.py) + inductive step on real nodes (steps.py)."""
 
 from __future__ import annotations
 
-from . import common, trav_plans, travcheck
+from typing import Any
+
+from . import common, steps, trav_plans, travcheck
 
 PID = "C04"
 plans = trav_plans.PLANS[PID]
-replay = travcheck.make_replay(plans)
+replay_trav = travcheck.make_replay(plans)
+
+
+def replay(data: dict[str, Any]) -> tuple[bool, str]:
+    if "case" in data:
+        return steps.replay_occupied(data)
+    return replay_trav(data)
 
 
 def run(ctx: common.Context) -> None:
-    travcheck.run_property(ctx, plans, replay)
+    steps.run_step(ctx, "occupied", 40, 400)
+    travcheck.run_property(ctx, plans, replay_trav)
+    ctx.assumptions.append("inductive step: params/results/started markers of real parsed bridged nodes are overwritten in place (restored afterwards); scope semantics oracle written from the property text")
